@@ -22,6 +22,23 @@ use crate::exec::{is_prefix, pick_len};
 
 ops_group!(GIter2);
 
+/// which element of `originals` is `id` a clone of (directly or through intermediate clones)
+fn clone_origin(clones: &[(u32, u32)], id: u32, originals: &[u32]) -> u32 {
+    let mut cur = id;
+    for _ in 0..8 {
+        match clones.iter().rev().find(|c| c.1 == cur) {
+            Some(c) => {
+                cur = c.0;
+                if originals.contains(&cur) {
+                    return cur;
+                }
+            }
+            None => break,
+        }
+    }
+    0
+}
+
 impl<'a, E: Elem> GIter2<'a, E> {
     pub fn op_it_clone(&mut self, cx: &mut Cx, a: [u32; N_ARGS]) {
         let Some(i) = pick_len(self.its.len(), a[0]) else { return self.noop(cx) };
@@ -39,7 +56,7 @@ impl<'a, E: Elem> GIter2<'a, E> {
                 let got = with_it!(&it2; it, N => { let _ = N::USIZE; ids_of(it.as_slice(), 949) });
                 if cx.checks.c06 {
                     if E::HAS_ID {
-                        let origin: Vec<u32> = infra(|| got.iter().map(|g| clones.iter().rev().find(|c| c.1 == *g).map(|c| c.0).unwrap_or(0)).collect());
+                        let origin: Vec<u32> = infra(|| got.iter().map(|g| clone_origin(&clones, *g, &want)).collect());
                         if origin != want {
                             fail("C06-clone", format!("clone of an iterator with remaining {want:?} yields clones of {origin:?}"));
                         }
@@ -143,13 +160,28 @@ impl<'a, E: Elem> GIter2<'a, E> {
         match r {
             Ok(s) => {
                 if cx.checks.c06 {
-                    let list = infra(|| {
-                        let parts: Vec<String> = io.model.iter().map(|id| E::debug_of(*id)).collect();
-                        format!("[{}]", parts.join(", "))
+                    // the elements shown (tokens `#id`), in order — punctuation and wrapper are free
+                    let (shown, list) = infra(|| {
+                        let mut shown: Vec<String> = Vec::new();
+                        let b = s.as_bytes();
+                        let mut i = 0;
+                        while i < b.len() {
+                            if b[i] == b'#' {
+                                let mut j = i + 1;
+                                while j < b.len() && b[j].is_ascii_digit() {
+                                    j += 1;
+                                }
+                                shown.push(s[i..j].to_string());
+                                i = j;
+                            } else {
+                                i += 1;
+                            }
+                        }
+                        let list: Vec<String> = io.model.iter().map(|id| E::debug_of(*id)).collect();
+                        (shown, list)
                     });
-                    let ok = infra(|| s.contains(&list) && s.matches('#').count() == io.model.len());
-                    if !ok {
-                        fail("C06-debug", format!("Debug printed {s:?}, the remaining elements are {list}"));
+                    if shown != list {
+                        fail("C06-debug", format!("Debug printed {s:?}, the remaining elements are {list:?}"));
                     }
                 }
             }
@@ -183,7 +215,7 @@ impl<'a, E: Elem> GIter2<'a, E> {
         })) });
         match r {
             Ok(Ok(out)) => {
-                if target != rem {
+                if target != rem && cx.checks.c07 {
                     fail("C07-wrong-length-accepted", format!("collecting {rem} remaining elements into length {target} returned Ok"));
                 }
                 let got = match &out {
@@ -199,7 +231,7 @@ impl<'a, E: Elem> GIter2<'a, E> {
                 }
             }
             Ok(Err(_)) => {
-                if target == rem && (cx.checks.c06 || cx.checks.c07) {
+                if target == rem && cx.checks.c07 {
                     fail("C07-right-length-rejected", format!("collecting {rem} remaining elements into length {target} returned LengthError"));
                 }
                 cx.probe("collect of a by-value iterator into the wrong length");
@@ -221,19 +253,7 @@ impl<'a, E: Elem> GIter2<'a, E> {
         let j = if j > i { j - 1 } else { j };
         let src = &self.its[j];
         ledger::with(|s| s.clones.clear());
-        let r = match (&mut dst.it, &src.it) {
-            (d, s0) => {
-                macro_rules! arms {
-                    ($($v:ident),*) => {
-                        match (d, s0) {
-                            $((It::$v(d), It::$v(s0)) => lib(|| d.clone_from(s0)),)*
-                            _ => unreachable!(),
-                        }
-                    };
-                }
-                arms!(L0, L1, L2, L3, L4, L5, L6, L7, L8, L9, L10, L11, L12, L15, L16, L17, L31, L32, L33, L64, L100, L1024)
-            }
-        };
+        let r = with_it_pair!((&mut dst.it, &src.it); d, s0, N => { let _ = N::USIZE; lib(|| d.clone_from(s0)) }; _o => unreachable!());
         let clones = ledger::with(|s| s.clones.clone());
         let want: Vec<u32> = infra(|| src.model.iter().copied().collect());
         match r {
@@ -242,7 +262,7 @@ impl<'a, E: Elem> GIter2<'a, E> {
                 let got = with_it!(&dst.it; it, N => { let _ = N::USIZE; ids_of(it.as_slice(), 949) });
                 if cx.checks.c06 {
                     if E::HAS_ID {
-                        let origin: Vec<u32> = infra(|| got.iter().map(|g| clones.iter().rev().find(|c| c.1 == *g).map(|c| c.0).unwrap_or(0)).collect());
+                        let origin: Vec<u32> = infra(|| got.iter().map(|g| clone_origin(&clones, *g, &want)).collect());
                         if origin != want {
                             fail("C06-clone", format!("clone_from a source with remaining {want:?} left the destination with clones of {origin:?}"));
                         }
